@@ -55,6 +55,23 @@ CLAIMED = {
             "Trusts TLC, CPython's threading semantics (parked threads do not run) and that scheduling points are the "
             "deque/list/socket operations, which the harness intercepts with injected container subclasses; messages arrive whole.",
             "DESIGN.md 5/C18"),
+    "C20": ("TLA+ spec Cli.tla: main() as ParseArgs/InitConfig/LoadFile/ApplyExplicit actions with the precedence policy as invariant, "
+            "TLC exhaustive over the full finite configuration product (MC_Cli) and over short strings for ReadBytes/WriteBytes "
+            "(MC_CliConv); every TLC-enumerated configuration replayed through the real bits.__main__.main() in-process (Gen_Cli); "
+            "recorded read_bytes/write_bytes/base-command conversions validated by TLC (Trace_Cli)",
+            "Exhaustive model check of 'explicit > chosen file (TOML if supported and present, else JSON) > default, unknown keys "
+            "ignored' over all 34,043 configurations (14 commands x 8 options x {not given, own position, before subcommand} x "
+            "values x json/toml {absent, no key, key=v} x unknown key x TOML support), with two named deviations that must each "
+            "yield TLC's counterexample; all nine format-pair round trips, left zero padding and newline stripping exhaustively on "
+            "short byte/hex/bit strings. EVERY configuration of that product is run through the real main() and the effective value "
+            "observed behaviourally (rendering, understood input encoding, hrp/WIF version/xprv prefix, handler levels, kwargs "
+            "reaching rpc_method); conversions and round trips through the base command on byte strings of length 0..64 and "
+            "odd-nibble / partial-byte / newline-wrapped texts are accepted or rejected by TLC evaluating the same operators.",
+            "Trusts TLC and CPython's argparse; rpc_method, getpass, the RNG and ecmath.sign are stubbed (not the subject of C20); "
+            "None and '' are one unset rpc_* value, testnet/regtest one class where the output cannot tell them apart; "
+            "tx/output_format and rpc/network have no behavioural effect and are read from the Config object main() built; the quick "
+            "tier reuses the real parser within a worker (cross-checked on every 16th configuration), the thorough tier builds it per run.",
+            "DESIGN.md 5/C20"),
 }
 NOT_YET = "machinery for this property is not built yet in this round (planned per DESIGN.md section 5)"
 
